@@ -214,6 +214,8 @@ class Body:
                     return ("env",)
                 return ("arg", name or ("_%d" % l))
         ds = self.defs.get(l, [])
+        if len(ds) > 1 and self.rec.get("inlined"):
+            ds = self._dedupe_defs(l, ds)
         whole = [d for d in ds if d[2]]
         if self.locals[l].get("alias") and len(ds) == 1 and len(whole) == 1:
             # parameter of an inlined helper: nothing but another name for the argument
@@ -226,6 +228,30 @@ class Body:
                 return ("var", l, self.local_names.get(l), inner)
             return ("var", l, self.local_names.get(l), None)
         return self._origin_def(l, whole[0], depth)
+
+    def _dedupe_defs(self, l, ds):
+        """definitions that are copies of one statement (blocks duplicated by the inliner's jump
+        threading) count once"""
+        cache = self.__dict__.setdefault("_dd", {})
+        if l in cache:
+            return cache[l]
+        keys = {}
+        for d in ds:
+            bi, si, whole = d
+            if si == "T":
+                t = self.blocks[bi]["term"]
+                k = json.dumps([t.get("k"), t.get("callee"), t.get("args"), t.get("dest"), t.get("resume_arg")], sort_keys=True)
+            else:
+                st = self.blocks[bi]["stmts"][si]
+                k = json.dumps([st["pl"], st["rv"]], sort_keys=True)
+            keys.setdefault(k, []).append(d)
+        out = []
+        live = self.live_blocks()
+        for k, group in keys.items():
+            lv = [d for d in group if d[0] in live]
+            out.append((lv or group)[0])
+        cache[l] = out
+        return out
 
     def _origin_def(self, l, d, depth):
         bi, si, _ = d
@@ -315,6 +341,14 @@ class Body:
                 if base[0] == "var" and base[3] is not None and base[3][0] == "agg" and name in base[3][4]:
                     base = base[3][4][name]
                     continue
+                # payload of a variant of an aggregate we can see through: (Poll::Ready(x) as Ready).0
+                if base[0] == "variant":
+                    inner = base[1]
+                    while inner[0] == "var" and inner[3] is not None:
+                        inner = inner[3]
+                    if inner[0] == "agg" and inner[3] == base[2] and name in inner[4]:
+                        base = inner[4][name]
+                        continue
                 base = ("field", base, name)
             elif kind == "dc":
                 base = ("variant", base, el[1])
